@@ -10,6 +10,7 @@ import (
 	"strconv"
 	"strings"
 	"sync"
+	"time"
 
 	"github.com/bytom/bytom/crypto/ed25519/chainkd"
 	"github.com/bytom/bytom/p2p/connection"
@@ -96,6 +97,8 @@ type c32side struct {
 }
 
 type c32state struct {
+	dead    bool // a call did not return: the case is abandoned (both pipes closed) until the next reset
+	hangs   int  // calls that did not return so far in this run
 	a, b    *c32side
 	tag     string
 	corrupt map[string]bool // side -> a frame in its inbox was tampered/truncated: stream checks off
@@ -168,6 +171,33 @@ func c32hex(b []byte) string {
 
 type c32fail struct{ sig, detail string }
 
+// every Read / Write the harness issues runs under a watchdog: the pipes are in memory, so a
+// call that has not returned after 3 s (300 ms once three calls have hung in this run) is
+// blocked for good. The case is then abandoned: both pipe ends are closed, which releases the
+// blocked goroutine, and the remaining lines of the case are answered "abandoned".
+func (st *c32state) watched(f func()) bool {
+	d := 3 * time.Second
+	if st.hangs >= 3 {
+		d = 300 * time.Millisecond
+	}
+	done := make(chan struct{})
+	go func() { f(); close(done) }()
+	select {
+	case <-done:
+		return true
+	case <-time.After(d):
+	}
+	st.hangs++
+	st.dead = true
+	st.a.conn.Close()
+	st.b.conn.Close()
+	select { // let the released call finish so that nothing touches the connection afterwards
+	case <-done:
+	case <-time.After(2 * time.Second):
+	}
+	return false
+}
+
 func (st *c32state) exec(c *Ctx, line string) (string, string, []c32fail) {
 	w := strings.Fields(line)
 	var fails []c32fail
@@ -175,6 +205,9 @@ func (st *c32state) exec(c *Ctx, line string) (string, string, []c32fail) {
 		return line, "bad-op", nil
 	}
 	c.Count("op/" + w[0])
+	if st.dead && w[0] != "reset" {
+		return line, "abandoned", nil
+	}
 	switch w[0] {
 	case "reset":
 		a, b, ea, eb := c32handshake(c)
@@ -183,6 +216,7 @@ func (st *c32state) exec(c *Ctx, line string) (string, string, []c32fail) {
 			return line, "reset-failed", fails
 		}
 		st.a, st.b = a, b
+		st.dead = false
 		st.corrupt = map[string]bool{}
 		// each side learned the key the other side authenticated with
 		if !bytes.Equal(a.sc.RemotePubKey(), b.prv.XPub().PublicKey()) || !bytes.Equal(b.sc.RemotePubKey(), a.prv.XPub().PublicKey()) {
@@ -215,7 +249,13 @@ func (st *c32state) exec(c *Ctx, line string) (string, string, []c32fail) {
 		me.conn.out.mu.Lock()
 		before := len(me.conn.out.buf)
 		me.conn.out.mu.Unlock()
-		n, werr := me.sc.Write(data)
+		var n int
+		var werr error
+		if !st.watched(func() { n, werr = me.sc.Write(data) }) {
+			c.Count("oracle/write-blocked")
+			fails = append(fails, c32fail{"write:blocks", fmt.Sprintf("%s Write of %d bytes on %s did not return (in-memory pipe, never full)", st.tag, len(data), w[1])})
+			return line, "blocked", fails
+		}
 		me.conn.out.mu.Lock()
 		after := len(me.conn.out.buf)
 		me.conn.out.mu.Unlock()
@@ -244,7 +284,16 @@ func (st *c32state) exec(c *Ctx, line string) (string, string, []c32fail) {
 			return line, "skipped-would-block", nil // never emitted: the generator checks first
 		}
 		buf := bytes.Repeat([]byte{0xAA}, l)
-		n, rerr := me.sc.Read(buf)
+		var n int
+		var rerr error
+		if !st.watched(func() { n, rerr = me.sc.Read(buf) }) {
+			// the harness only reads when bytes of the peer's stream are deliverable: b0 bytes are
+			// sitting decrypted in recvBuffer, or a whole sealed frame (or EOF) is in the inbox
+			c.Count("oracle/read-blocked")
+			undelivered := len(peer.sent) - me.pos
+			fails = append(fails, c32fail{"read:blocks-with-undelivered-bytes", fmt.Sprintf("%s Read(len %d) on %s did not return although %d bytes written by the peer are undelivered (%d of them already decrypted in recvBuffer, %d sealed bytes in the inbox, closed=%v)", st.tag, l, w[1], undelivered, b0, avail, closed)})
+			return line, "blocked", fails
+		}
 		b1 := me.sc.VerifRecvBuffered()
 		me.conn.in.mu.Lock()
 		avail1 := len(me.conn.in.buf)
@@ -256,35 +305,37 @@ func (st *c32state) exec(c *Ctx, line string) (string, string, []c32fail) {
 		}
 		res := fmt.Sprintf("n=%d err=%s buf=%s buffered=%d nonce=%s", n, c32errR(rerr), c32hex(dirty), b1, hex.EncodeToString(rn[:]))
 		c.Count("read/" + c32errR(rerr))
-		// ---- direct oracle: the stream
+		// ---- direct oracle: the stream, in order, exactly
 		if n < 0 || n > l {
 			fails = append(fails, c32fail{"read:count-out-of-range", st.tag})
 			return line, res, fails
 		}
 		if !st.corrupt[w[1]] && rerr == nil {
 			if b0 > 0 {
-				// served from recvBuffer: `consumed` bytes left the receiver's stream for good
-				c.Count("read/from-buffer")
-				consumed := b0 - b1
-				lostOK := me.pos+consumed <= len(peer.sent) && bytes.Equal(buf[:consumed], peer.sent[me.pos:me.pos+consumed])
-				switch {
-				case !lostOK:
-					fails = append(fails, c32fail{"read:wrong-bytes", fmt.Sprintf("%s buffered branch copied bytes that are not the next %d bytes of the stream at %d", st.tag, consumed, me.pos)})
-				case n == 0 && consumed > 0:
-					// (F18, fixed in a002565b) copied into the caller's buffer, dropped from recvBuffer, but reported as n = 0
-					c.Count("oracle/F18-lost-bytes")
-					fails = append(fails, c32fail{"SecretConnection.Read:buffered-branch-returns-n=0", fmt.Sprintf("%s Read(len %d) with %d bytes buffered: copied %d stream bytes (%s…) into the buffer, removed them from recvBuffer, returned n=0 err=nil — the caller loses them", st.tag, l, b0, consumed, c32hex(dirty[:minInt32(len(dirty), 8)]))})
-				case n != consumed:
-					fails = append(fails, c32fail{"read:count-mismatch", fmt.Sprintf("%s consumed %d returned %d", st.tag, consumed, n)})
-				}
-				me.pos += consumed // resynchronise: one lost run is one report
-			} else {
-				if avail1 < avail {
-					c.Count("read/from-frame")
-				}
-				if me.pos+n > len(peer.sent) || !bytes.Equal(buf[:n], peer.sent[me.pos:me.pos+n]) {
-					fails = append(fails, c32fail{"read:wrong-bytes", fmt.Sprintf("%s returned %d bytes that are not the next bytes of the stream at %d", st.tag, n, me.pos)})
-				}
+				c.Count("read/with-bytes-buffered")
+			} else if avail1 < avail {
+				c.Count("read/from-frame")
+			}
+			consumed := b0 - b1 // bytes that left recvBuffer for good (when it was not empty)
+			want := peer.sent[minInt32(me.pos, len(peer.sent)):minInt32(me.pos+n, len(peer.sent))]
+			switch {
+			case b0 > 0 && avail1 < avail:
+				// a new frame was taken from the connection while earlier bytes were still waiting in
+				// recvBuffer: whatever is returned now overtakes them
+				fails = append(fails, c32fail{"read:order-violated-frame-read-before-buffered-bytes", fmt.Sprintf("%s Read(len %d) on %s took the next frame from the connection while %d earlier stream bytes (offset %d…) were still in recvBuffer; returned %d bytes %s… where %s… was due", st.tag, l, w[1], b0, me.pos, n, c32hex(buf[:minInt32(n, 8)]), c32hex(peer.sent[minInt32(me.pos, len(peer.sent)):minInt32(me.pos+8, len(peer.sent))]))})
+				st.corrupt[w[1]] = true // the stream position is lost: one report per case and direction
+			case me.pos+n > len(peer.sent) || !bytes.Equal(buf[:n], want):
+				fails = append(fails, c32fail{"read:wrong-bytes", fmt.Sprintf("%s Read(len %d) on %s returned %d bytes %s… that are not the next bytes of the stream at offset %d (%s… due)", st.tag, l, w[1], n, c32hex(buf[:minInt32(n, 8)]), me.pos, c32hex(want[:minInt32(len(want), 8)]))})
+				st.corrupt[w[1]] = true
+			case b0 > 0 && n == 0 && consumed > 0:
+				// (F18, fixed in a002565b) copied into the caller's buffer, dropped from recvBuffer, but reported as n = 0
+				c.Count("oracle/F18-lost-bytes")
+				fails = append(fails, c32fail{"SecretConnection.Read:buffered-branch-returns-n=0", fmt.Sprintf("%s Read(len %d) with %d bytes buffered: copied %d stream bytes (%s…) into the buffer, removed them from recvBuffer, returned n=0 err=nil — the caller loses them", st.tag, l, b0, consumed, c32hex(dirty[:minInt32(len(dirty), 8)]))})
+				me.pos += consumed
+			case b0 > 0 && n != consumed:
+				fails = append(fails, c32fail{"read:count-mismatch", fmt.Sprintf("%s %d bytes left recvBuffer, %d returned", st.tag, consumed, n)})
+				me.pos += consumed
+			default:
 				if len(dirty) > n {
 					fails = append(fails, c32fail{"read:wrote-beyond-n", fmt.Sprintf("%s n=%d but %d bytes of the buffer changed", st.tag, n, len(dirty))})
 				}
@@ -390,7 +441,12 @@ func (st *c32state) genLine(c *Ctx, closed *bool, bigReads bool) string {
 	case r < 90:
 		for _, t := range []string{s, sides[0], sides[1]} {
 			if st.readable(t) {
-				l := c32sizes(c, 3000, []int{0, 1, 2, 100, 1023, 1024, 1025, 2048})
+				// mixed sizes in random alternation: tiny (1..8), around a chunk / a frame
+				// (1023..1027), several frames (2048, 4096, 65536)
+				l := c32sizes(c, 3000, []int{0, 1, 2, 3, 4, 5, 6, 7, 8, 100, 1023, 1024, 1025, 1026, 1027, 2048, 4096, 65536})
+				if c.Rng.Intn(4) == 0 {
+					l = 1 + c.Rng.Intn(8) // a short read, so that the next (often large) one finds bytes buffered
+				}
 				if bigReads {
 					l = 1024 + c.Rng.Intn(2000)
 				}
@@ -524,10 +580,14 @@ func runC32(c *Ctx) {
 			c.Op(op, res)
 			emitFails(fs)
 			key = append(key, op)
+			if st.dead {
+				c.Count("case/abandoned-after-hang")
+				break
+			}
 		}
 		// drain both directions with large buffers (so that the whole stream is compared)
 		for _, s := range []string{"A", "B"} {
-			for k := 0; k < 64 && st.readable(s); k++ {
+			for k := 0; k < 64 && !st.dead && st.readable(s); k++ {
 				op, res, fs := st.exec(c, fmt.Sprintf("r %s %d", s, 1024+c.Rng.Intn(100)))
 				c.Op(op, res)
 				emitFails(fs)
